@@ -138,6 +138,20 @@ def judge(c, impl, model):
             got_params = [p_ if isinstance(p_, Sym) else p_[1] for p_ in params]
             if [str(x) for x in want_params] != [str(x) for x in got_params]:
                 report('C04/wrapper-params', '%s::%s' % (name, fn_name(f)))
+    # one wrapper per virtual function, also on types that inherit their table: two methods of one name on a type, one of which
+    # dispatches through a slot, means there is no single wrapper (and the emitted impl is not valid Rust)
+    for (mp, file, m) in modules_of(c):
+        items = file_items(files, mp)
+        for d in m_defs(m):
+            if not def_is_type(d): continue
+            im = find_item(items, 'impl', def_name(d))
+            if im is None: continue
+            seen_m = {}
+            for x in impl_methods(im):
+                seen_m.setdefault(method_name(x), []).append(x)
+            for nm, xs in seen_m.items():
+                if len(xs) > 1 and any(tag(method_body(x)) == 'call-slot' for x in xs):
+                    report('C04/duplicate-wrapper', '%s::%s emitted %d times' % (def_name(d), nm, len(xs)))
     if checked >= 2:
         info['nontrivial'] = True
     count(info, 'slots-checked:%s' % ('0' if not checked else '1-2' if checked < 3 else '3-9' if checked < 10 else '10+'))
